@@ -411,6 +411,7 @@ func c04E2E(c *Ctx, idx int, seed int64, sp *e2eSpec, dir string) {
 	res.Eval()
 	o := e2eRun(c, seed, sp, dir)
 	defer o.w.close()
+	dumpOutcome(o, idx)
 	w := o.w
 	delSeq := map[string]int{}
 	for i, d := range o.delivered {
@@ -421,17 +422,39 @@ func c04E2E(c *Ctx, idx int, seed int64, sp *e2eSpec, dir string) {
 	// position of the first pop of each file and the pushes before it
 	firstPop := map[string]int{}
 	pushed := map[string]int{}
+	lastPrev := map[string]string{} // predecessor announced with the latest chunk of a name
+	resent := map[string]bool{}     // names pushed again as a resend / resumed file (these announce the predecessor they had before, not their place in the chain)
 	for _, e := range o.events {
 		switch e.Kind {
 		case "q_push":
 			if _, ok := pushed[e.Name]; !ok {
 				pushed[e.Name] = e.Seq
 			}
+			if e.S == "recovered" {
+				resent[e.Name] = true
+			}
 		case "q_pop":
 			if _, ok := firstPop[e.Name]; !ok {
 				firstPop[e.Name] = e.Seq
 			}
+			lastPrev[e.Name] = e.S
 		}
+	}
+	// does the chain of announced predecessors lead from y back to x?  If it stops
+	// short at a resent file, the receiver was never told to hold y for x.
+	chainBrokenAtResent := func(x, y string) bool {
+		seen := map[string]bool{}
+		viaResent := false
+		for p := lastPrev[y]; p != "" && !seen[p]; p = lastPrev[p] {
+			if p == x {
+				return false
+			}
+			seen[p] = true
+			if resent[p] {
+				viaResent = true
+			}
+		}
+		return viaResent
 	}
 	ord := sp.Conf.Tags[0].Order
 	less := func(a, b *srcVersion, an, bn string) bool {
@@ -478,7 +501,11 @@ func c04E2E(c *Ctx, idx int, seed int64, sp *e2eSpec, dir string) {
 			if !delx || dx > dy {
 				s := *sp
 				s.Events = tailEvents(o.events, 120)
-				res.Violate(Violation{Clause: "group-order-end-to-end", Fingerprint: "C04/e2e-order", Index: idx, Scenario: &s,
+				fp := "C04/e2e-order"
+				if chainBrokenAtResent(x.Name, y.Name) {
+					fp = "C04/e2e-order-chain-broken-at-resent-file"
+				}
+				res.Violate(Violation{Clause: "group-order-end-to-end", Fingerprint: fp, Index: idx, Scenario: &s,
 					Detail: fmt.Sprintf("order %q: %s precedes %s in group %s and was queued when %s was first emitted, but %s was delivered first (delivery #%d vs #%d)", ord, x.Name, y.Name, groupOf(x.Name), y.Name, y.Name, dy, dx)})
 			}
 		}
